@@ -19,7 +19,7 @@ import subprocess
 from lib import vlib
 from lib.vlib import cq_list
 from props import c04
-from props.c04 import (Ids, cq_store, op_to_coq, res_class, check_complete, parse_name, fold, sha, EMPTY_STATE)
+from props.c04 import (Ids, cq_store, op_to_coq, act_to_coq, res_class, check_complete, parse_name, fold, sha, EMPTY_STATE)
 
 SETUP_BUILDS = [{"name": "c04"}]
 COQ_TARGETS = ["Store/Properties_C12.v", "Store/Corr.v"]
@@ -431,7 +431,12 @@ def monitor_case(c):
         ok = all(res_class(o, ob) == "ROk" or (o["op"] == "delete" and res_class(o, ob) == "RNotFound") for o, ob in zip(c.group, redo))
         ref_ok = all(res_class(o, ob) == "ROk" for o, ob in zip(c.group, c.ref_obs))
         selfref = any(o["op"] == "create" and o.get("from") and fold(parse_name(o["from"])) == fold(parse_name(o["name"])) for o in c.group)
-        torn = any((not m["readable"]) and base_m.get(m["path"], {"readable": True})["readable"] for m in st["manifests"])
+        torn_paths = [m["path"] for m in st["manifests"] if (not m["readable"]) and base_m.get(m["path"], {"readable": True})["readable"]]
+        torn = bool(torn_paths)
+        # does the request spell its target as the torn file is spelled?  (C12_idempotent_redo_guarded: then the repetition must
+        # restore the uninterrupted result; C12_redo_torn_exact: otherwise it cannot)
+        req_names = [parse_name(o["dst"] if o["op"] == "copy" else o["name"]) for o in c.group if o["op"] in ("create", "copy", "pull")]
+        respelled = any(tuple(p.split("/")) not in req_names for p in torn_paths)
         if ref_ok and not ok:
             out.append(({"class": "redo-fails", "op": kinds, "self_referential": selfref, "torn_manifest": torn},
                         "repeating %s after a crash at prefix %d and restart fails: %s" % (kinds, i, [(ob.get("code"), ob.get("errors"), ob.get("body", "")[-120:]) for ob in redo]), i))
@@ -440,13 +445,14 @@ def monitor_case(c):
             want = {m["path"]: m for m in c.ref_state["manifests"]}
             if fm != want:
                 diff = sorted(set(fm) ^ set(want)) or [p for p in fm if fm[p] != want[p]]
-                out.append(({"class": "redo-differs", "op": kinds, "self_referential": selfref, "torn_manifest": torn},
+                out.append(({"class": "redo-differs", "op": kinds, "self_referential": selfref, "torn_manifest": torn, "respelled": respelled},
                             "repeating %s after a crash at prefix %d and restart leaves other manifests than the uninterrupted run: %s" % (kinds, i, diff[:3]), i))
             else:
                 fb = {b["name"]: b for b in last["state"]["blobs"]}
                 wb = {b["name"]: b for b in c.ref_state["blobs"]}
                 for nm in referenced_names(c.ref_state):
-                    if fb.get(nm) != wb.get(nm):
+                    # (a blob the uninterrupted run itself lacks — old-version store not yet restarted — is not compared)
+                    if nm in wb and fb.get(nm) != wb.get(nm):
                         out.append(({"class": "redo-differs-blob", "op": kinds}, "after the repeated %s blob %s differs from the uninterrupted run" % (kinds, nm), i))
             for e in (last.get("api") or {}).get("listed") or []:
                 if e["show"] != 200 and not any(x["show"] != 200 and x["name"] == e["name"] for x in []):
@@ -465,7 +471,7 @@ def render_case(fx, c):
     for op, o in zip(c.pre, c.pre_obs):
         for b in o["state"]["blobs"]:
             ids.size.setdefault(ids.h(b["sha"]), b["size"])
-        pre_ops.append(op_to_coq(ids, fx, op, before, o["state"]))
+        pre_ops.append(act_to_coq(ids, fx, op, before, o["state"]))
         before = o["state"]
     # deleteUnusedLayers of a pull walks a Go map: the order in which blobs disappeared is an input of the model
     removed = []
@@ -483,7 +489,7 @@ def render_case(fx, c):
     states = [cq_store(ids, st) for st in c.states]
     recs = [cq_store(ids, r["state"]) for r in c.recovered]
     items = []
-    items.append(("chk_crash_prefixes", "chk_crash_prefixes_seq %s %s %s %s" % ("TBL", cq_list(pre_ops, "op"), cq_list(grp, "op"), cq_list(states, "store"))))
+    items.append(("chk_crash_prefixes", "chk_crash_prefixes_seq %s %s %s %s" % ("TBL", cq_list(pre_ops, "action"), cq_list(grp, "op"), cq_list(states, "store"))))
     for st, rc in zip(states, recs):
         items.append(("chk_recover", "chk_recover TBL %s %s" % (st, rc)))
     for rc, redo, rec in zip(recs, c.redone, c.recovered):
@@ -493,7 +499,7 @@ def render_case(fx, c):
         for op, o in zip(c.group, redo):
             for b in o["state"]["blobs"]:
                 ids.size.setdefault(ids.h(b["sha"]), b["size"])
-            steps.append("(MkStep %s %s %s)" % (op_to_coq(ids, fx, op, before, o["state"]), res_class(op, o), cq_store(ids, o["state"])))
+            steps.append("(MkStep %s %s %s)" % (act_to_coq(ids, fx, op, before, o["state"]), res_class(op, o), cq_store(ids, o["state"])))
             before = o["state"]
         items.append(("chk_redo", "chk_steps (size_tbl TBL) %s %s" % (rc, cq_list(steps, "step"))))
     tbl = ids.tbl()
@@ -527,7 +533,10 @@ def gen_pre(rng, fx):
         pre.append({"op": "copy", "src": rng.choice(used), "dst": n3})
         used.append(n3)
     tail = c04.gen_history(rng, fx, rng.randint(0, 3), "mixed")
-    pre += [o for o in tail if o["op"] not in ("startup", "delete") or rng.random() < 0.3]
+    pre += [o for o in tail if o["op"] not in ("startup", "delete", "legacy") or (o["op"] != "legacy" and rng.random() < 0.3)]
+    if rng.random() < 0.25:
+        # the crash hits a store an older version left: the restart has to run fixBlobs for real
+        pre.append(c04.gen_legacy(rng, fx, [k]))
     return pre
 
 
@@ -594,7 +603,8 @@ def run(ctx):
                        "crash = death of the server process (SIGKILL) between two system calls; a torn single write() is not modelled",
                        "a crash during the start-up sequence itself is not enumerated"]
     ctx.proof_stage(["Store"], "Store/Properties_C12.v", extra_targets=["Store/Corr.v"],
-                    expect_theorems=["C12_crash_sound", "C12_reachable_inv", "C12_idempotent_redo_partial", "C12_idempotent_redo_refuted"])
+                    expect_theorems=["C12_crash_sound", "C12_reachable_inv", "C12_idempotent_redo_partial", "C12_idempotent_redo_guarded",
+                                     "C12_redo_torn_exact", "C12_redo_upload_create", "C12_idempotent_redo_refuted"])
     if not ctx.quick():
         ctx.coqchk(["V.Store.Properties_C12"])
     binp = ctx.go_build("c04")
@@ -734,8 +744,8 @@ MANIFEST = {
         "design_ref": "DESIGN.md section 5, C12",
     },
     "level_note": "Model = repaired code (fixes/C04-*.patch). C12_crash_sound is full strength over the model (any reachable store, any operation meeting "
-                  "its guard, any effect prefix). The redo clause is partial: proved for crash points that leave no torn manifest and for delete / copy / "
-                  "create FROM another model / pull with every layer downloadable; the full statement is refuted on the model (manifests are written in "
+                  "its guard, any effect prefix). The redo clause is proved for every crash point (torn manifests included) of delete / copy / create FROM / create from files (upload repeated) / "
+                  "pull under the decidable redo_guard, whose torn-manifest part is exact (C12_redo_torn_exact); the unguarded statement is refuted on the model (manifests are written in "
                   "place; known findings C12-torn-manifest-*, C12-self-referential-create-not-idempotent). Trusted: Coq kernel/vm_compute; strace + the python "
                   "replayer of traced calls (self-checked; real SIGKILLs sampled); process death only (no torn writes, no power-loss reordering); honest "
                   "registry; crashes during start-up itself are not enumerated.",
